@@ -204,6 +204,7 @@ pub struct Features {
     pub matches: u32,
     pub arrays: u32,
     pub sibling_closures: u32,
+    pub shared_cells: u32,
     pub pipes: u32,
     pub nodes: u32,
     pub fns: u32,
@@ -244,6 +245,7 @@ impl Features {
         f!(self.matches > 0, "f:match");
         f!(self.arrays > 0, "f:array");
         f!(self.sibling_closures > 0, "f:sibling-closures");
+        f!(self.shared_cells > 0, "f:shared-cell");
         f!(self.pipes > 0, "f:pipe");
         c
     }
@@ -313,6 +315,8 @@ pub struct PCfg {
     pub rec_pattern_thirds: u32,
     /// two local closures of one frame capturing the same closure-typed local
     pub sibling_closures: bool,
+    /// a numeric local assigned and read by two closures of its frame and by the frame itself
+    pub shared_cell: bool,
     /// array indices may be +-inf (off: the index is `sin(e) * 6.0`, finite or NaN)
     pub array_index_inf: bool,
     /// nested tuple types (e.g. `(float,(float,float))`) for parameters, returns and `self`
@@ -358,6 +362,7 @@ impl Default for PCfg {
             rec_weight: 1,
             rec_pattern_thirds: 1,
             sibling_closures: true,
+            shared_cell: true,
             array_index_inf: true,
             nested_tuples: false,
         }
@@ -606,6 +611,7 @@ impl<'a> PG<'a> {
             if self.cfg.num_match && !(sc.in_lambda && !self.cfg.if_in_lambda) { 2 } else { 0 }, // 19 match on a number
             if self.cfg.arrays && self.fuel > 0 && (self.cfg.block_operands || !sc.in_operand) { 2 } else { 0 }, // 20 indexed local array
             if self.cfg.sibling_closures && self.cfg.closures && sc.allow_closure && !sc.in_lambda && !clo_vars.is_empty() && (self.cfg.block_operands || !sc.in_operand) { 2 } else { 0 }, // 21 sibling closures sharing a captured closure
+            if self.cfg.shared_cell && self.cfg.closures && self.cfg.assigns && sc.allow_closure && !sc.in_lambda && (self.cfg.block_operands || !sc.in_operand) { 2 } else { 0 }, // 22 a numeric local shared by sibling closures and the frame
         ];
         match self.g.weighted(&w) {
             0 => self.leaf_num(sc),
@@ -718,6 +724,37 @@ impl<'a> PG<'a> {
                 let body = self.num(&mut inner);
                 let id = self.id();
                 E::Pipe(id, Box::new(x), Box::new(E::Lam(vec![Param { name: pname, ty: Ty::Num, annotate: false }], Box::new(body))))
+            }
+            22 => {
+                // { let c = e0
+                //   let inc = |x| { c = c + x  c }     (a closure that assigns the captured local)
+                //   let get = |x| c * x                (a sibling that reads it)
+                //   [c = c + e1]                       (the frame assigns it after the capture)
+                //   inc(a) + get(b) }                  — none of the closures leaves the frame
+                self.feat.closures_local += 2;
+                self.feat.shared_cells += 1;
+                self.feat.assigns += 1;
+                let c = self.fresh("c");
+                let inc = self.fresh("inc");
+                let get = self.fresh("get");
+                let (x1, x2) = (self.fresh("x"), self.fresh("x"));
+                let init = self.small_num(sc);
+                let mut stmts = vec![S::Let(Pat::Var(c.clone()), init)];
+                let inc_body = E::Block(vec![S::Let(Pat::Var(self.fresh("u")), E::Lit("0.0".into())), S::Assign(c.clone(), E::Bin(Bop::Add, Box::new(E::Var(c.clone())), Box::new(E::Var(x1.clone()))))], Box::new(E::Var(c.clone())));
+                stmts.push(S::Let(Pat::Var(inc.clone()), E::Lam(vec![Param { name: x1, ty: Ty::Num, annotate: self.g.coin() }], Box::new(inc_body))));
+                stmts.push(S::Let(Pat::Var(get.clone()), E::Lam(vec![Param { name: x2.clone(), ty: Ty::Num, annotate: self.g.coin() }], Box::new(E::Bin(Bop::Mul, Box::new(E::Var(c.clone())), Box::new(E::Var(x2)))))));
+                if self.g.coin() {
+                    let e1 = self.small_num(sc);
+                    stmts.push(S::Assign(c.clone(), E::Bin(Bop::Add, Box::new(E::Var(c.clone())), Box::new(e1))));
+                }
+                let a = self.small_num(sc);
+                let b = self.small_num(sc);
+                let (i1, i2) = (self.id(), self.id());
+                let first_inc = self.g.coin();
+                let ci = E::Call(i1, Box::new(E::Var(inc)), vec![a]);
+                let cg = E::Call(i2, Box::new(E::Var(get)), vec![b]);
+                let last = if first_inc { E::Bin(Bop::Add, Box::new(ci), Box::new(cg)) } else { E::Bin(Bop::Add, Box::new(cg), Box::new(ci)) };
+                E::Block(stmts, Box::new(last))
             }
             21 => {
                 // { let k = <closure>  let lo = |x| k(x) + a  let hi = |x| k(x) * b  lo(u) + hi(v) }
